@@ -116,6 +116,15 @@ var checks = map[string]checkCfg{
 		Assumptions: append([]string{"real sockets on loopback and real time; a busy machine can only delay, never fail, an assertion"}, baseAssumptions...),
 		Phases: []phase{rp("rapid", "^TestC17$", 8, 12, 16, 120),
 			{Name: "race", Variant: "race", Tests: "^TestC17$", QuickShards: 2, QuickChecks: 8, ThoroughShards: 8, ThoroughChecks: 60}}},
+	"C18": {Level: "exploration", Technique: "rapid timing sequences on a virtual clock vs exact (big.Rat) ideal token buckets; cleanup differential; handler integration",
+		Rule:        "phase limiter: each case draws a RateLimiterConfig (rates/bursts in {0,1,2,5,1000}, mount per minute in {0,1,7,60}, CleanupInterval in {1 s, 60 s, 1 h}) and 5-80 events (advance the virtual clock by {0, 1 ns, 1 ms, 1/3 s, 1 s, 7 s, 90 s, 2 h}, then AllowRequest(ip, conn) or AllowOperation(ip, type)) over 4 IPs x 3 connections x 4 operation types; phase handlers drives real READ/WRITE > 64 KiB, READDIR(PLUS) and MNT requests through HandleCall under the same clock; non-trivial = the sequence contains a refusal and a later admission; distinct = FNV-64 of the case JSON",
+		Assumptions: append([]string{"rate_limiter.go is compiled with time.Now/time.Since mechanically redirected to the harness clock (go/ast rewrite of the working-tree file at check time)", "decisions within 1e-6 tokens of the boundary are accepted either way (float64 implementation vs exact model)"}, baseAssumptions...),
+		Phases: []phase{{Name: "limiter", Variant: "clock", Tests: "^TestC18$", QuickShards: 4, QuickChecks: 2500, ThoroughShards: 16, ThoroughChecks: 50000, ReplayVariant: true},
+			{Name: "handlers", Variant: "clock", Tests: "^TestC18Handlers$", QuickShards: 2, QuickChecks: 600, ThoroughShards: 8, ThoroughChecks: 6000}}},
+	"C19": {Level: "exploration", Technique: "rapid abusive-vs-compliant arrival streams on a virtual clock vs ideal buckets fed by admitted requests only",
+		Rule:        "as C18 phase limiter, with one abusive client (IP 0: many arrivals with tiny gaps, far beyond its per-IP/per-connection limits) interleaved with compliant clients and a global limit above the compliant traffic; non-trivial = at least one refusal of the abusive client precedes an arrival of a compliant client; distinct = FNV-64 of the case JSON",
+		Assumptions: append([]string{"virtual clock rewrite as C18", "a client is compliant while every one of its arrivals finds >= 1 token in its own ideal per-IP and per-connection buckets (arrivals, not admissions, drain them)"}, baseAssumptions...),
+		Phases: []phase{{Name: "limiter", Variant: "clock", Tests: "^TestC19$", QuickShards: 4, QuickChecks: 2500, ThoroughShards: 16, ThoroughChecks: 50000, ReplayVariant: true}}},
 	"C02": {Level: "exploration", Technique: "rapid histories vs POSIX tree model + cached-vs-uncached differential",
 		Rule:        "cases are rapid-generated sequential histories of LOOKUP/CREATE/MKDIR/SYMLINK/REMOVE/RMDIR/RENAME/READDIR(PLUS)/GETATTR/READLINK over names {a,b,c} to depth 3, addressed through every handle ever issued (stale ones included); each history runs under the all-off baseline and k cached configurations (quick 3, thorough 6 of 15); non-trivial = a read-type request on a name or directory affected by an earlier successful mutation, executed under a configuration with at least one cache on; distinct = FNV-64 of the case JSON",
 		Assumptions: append([]string{"documented latitude L1-L7 of DESIGN.md §5 C02 (REMOVE of empty dir, UNCHECKED/EXCLUSIVE on existing objects, error code identity not compared against the model, path-bound handles)"}, baseAssumptions...),
